@@ -9,6 +9,7 @@ import (
 	"io"
 	"os"
 	"strings"
+	"time"
 
 	"github.com/songzhibin97/go-baseutils/base/bcomparator"
 	"github.com/songzhibin97/go-baseutils/structure/lists/arraylist"
@@ -36,6 +37,9 @@ type list interface {
 	KeptNow() [][]int // the slices returned by Values() so far, as they are now
 	Scribble()        // overwrite every cell of a fresh Values() result with a never-stored value
 	Snapshot() []int  // current contents, for the generators (not a recorded call)
+	// callbacks that observe the list in the middle of the operation (and may panic): see elemtypes.go
+	SortObserved(panicAt int, during *[][]int)
+	Iterate(name string, panicAt int, seen *[]int, during *[][]int) bool
 }
 type linked interface {
 	Append(values ...int)
@@ -51,11 +55,11 @@ type kind struct {
 }
 
 var kinds = []kind{
-	{name: "arraylist", coq: "KArray", safe: false, mk: func() list { return wrapA[int]{&wrap[int]{l: arraylist.New[int](), c: idCodec}} }},
+	{name: "arraylist", coq: "KArray", safe: false, mk: func() list { return newAL(idCodec) }},
 	{name: "arraylist.Safe", coq: "KArray", safe: true, mk: func() list { return wrapA[int]{&wrap[int]{l: arraylist.NewSafe[int](), c: idCodec}} }},
-	{name: "doublylinkedlist", coq: "KDList", safe: false, mk: func() list { return &wrap[int]{l: doublylinkedlist.New[int](), c: idCodec} }},
+	{name: "doublylinkedlist", coq: "KDList", safe: false, mk: func() list { return newDL(idCodec) }},
 	{name: "doublylinkedlist.Safe", coq: "KDList", safe: true, mk: func() list { return &wrap[int]{l: doublylinkedlist.NewSafe[int](), c: idCodec} }},
-	{name: "singlylinkedlist", coq: "KSList", safe: false, mk: func() list { return &wrap[int]{l: singlylinkedlist.New[int](), c: idCodec} }},
+	{name: "singlylinkedlist", coq: "KSList", safe: false, mk: func() list { return newSL(idCodec) }},
 	{name: "singlylinkedlist.Safe", coq: "KSList", safe: true, mk: func() list { return &wrap[int]{l: singlylinkedlist.NewSafe[int](), c: idCodec} }},
 }
 
@@ -252,11 +256,41 @@ type caseBuilder struct {
 	steps  []string
 	labels []string
 	hist   []string
-	dead   bool // the implementation panicked: the case ends there
+	dead   bool // the implementation panicked or hung: the case ends there
+	hung   bool // a call did not return: reported as a direct violation, the case itself is not written
 	maxLen int
 }
 
-func newCase(k kind) *caseBuilder { return &caseBuilder{k: k, l: k.mk()} }
+// ---------- watchdog: every call into the code under test runs under a time limit ----------
+const hangLimit = 10 * time.Second
+
+var (
+	theWriter *vhlib.Writer
+	hungKinds = map[string]int{} // calls that did not return, per structure: after two, its remaining cases are skipped
+)
+
+func newCase(k kind) *caseBuilder {
+	c := &caseBuilder{k: k, l: k.mk()}
+	if hungKinds[k.name] >= 2 {
+		c.dead, c.hung = true, true
+	}
+	return c
+}
+
+// guarded runs f (a call into the code under test) recovering a panic, under the watchdog. A call that does not
+// return ends the case and becomes a direct violation "call does not return" with the calls so far as the replay;
+// the stuck goroutine is abandoned.
+func (c *caseBuilder) guarded(what string, f func()) (panicked bool) {
+	var p bool
+	if vhlib.WithTimeout(hangLimit, func() { p, _ = vhlib.Recover(f) }) {
+		return p
+	}
+	c.dead, c.hung = true, true
+	hungKinds[c.k.name]++
+	theWriter.Violation(c.k.name+" hang", what+": call does not return",
+		map[string]interface{}{"structure": c.k.name, "calls": append(append([]string{}, c.hist...), what+"  <- does not return within "+hangLimit.String())})
+	return false
+}
 
 func (c *caseBuilder) call(o op, label string) {
 	if c.dead {
@@ -264,7 +298,10 @@ func (c *caseBuilder) call(o op, label string) {
 	}
 	before := stdoutPos()
 	var res string
-	p, _ := vhlib.Recover(func() { res = exec(c.l, o) })
+	p := c.guarded(o.String(), func() { res = exec(c.l, o) })
+	if c.hung {
+		return
+	}
 	bytes := stdoutPos() - before
 	if p {
 		res = "RPanic"
@@ -312,8 +349,8 @@ func (c *caseBuilder) observe(after string) {
 	}
 	if b, ok := c.l.(backed); ok {
 		var arr []int
-		p, _ := vhlib.Recover(func() { arr = b.VerifBacking() })
-		if !p {
+		p := c.guarded("VerifBacking", func() { arr = b.VerifBacking() })
+		if !p && !c.hung {
 			c.steps = append(c.steps, "SBack "+vhlib.IntList(arr))
 			c.labels = append(c.labels, after+"/backing")
 		}
@@ -330,16 +367,104 @@ func (c *caseBuilder) scribble() {
 		return
 	}
 	c.hist = append(c.hist, "Scribble(Values())")
-	if p, _ := vhlib.Recover(func() { c.l.Scribble() }); p {
+	if p := c.guarded("Scribble(Values())", func() { c.l.Scribble() }); p || c.hung {
 		return
 	}
 	c.observe("Scribble")
 }
 
+// run-length encoding of the states a callback saw: [(count, contents); ...]
+func rle(states [][]int) string {
+	var it []string
+	for i := 0; i < len(states); {
+		j := i
+		for j < len(states) && sameInts(states[j], states[i]) {
+			j++
+		}
+		it = append(it, vhlib.Pair(vhlib.Nat(j-i), vhlib.IntList(states[i])))
+		i = j
+	}
+	return vhlib.List(it)
+}
+
+// sortObserved: Sort with a comparator that reads the list at every invocation and, if panicAt >= 0, panics at that
+// invocation (recovered here). Plain lists only: a Safe wrapper holds its mutex while it sorts.
+func (c *caseBuilder) sortObserved(panicAt int) {
+	if c.dead {
+		return
+	}
+	if c.k.safe {
+		c.do(op{K: "Sort"})
+		return
+	}
+	what := fmt.Sprintf("Sort(observing comparator, panics at call %d)", panicAt)
+	c.hist = append(c.hist, what)
+	var during [][]int
+	before := stdoutPos()
+	p := c.guarded(what, func() { c.l.SortObserved(panicAt, &during) })
+	if c.hung {
+		return
+	}
+	bytes := stdoutPos() - before
+	switch {
+	case p && panicAt >= 0 && len(during) == panicAt+1: // the comparator's own panic, recovered by the caller
+		var after []int
+		if c.guarded("Values", func() { after = c.l.Snapshot() }) || c.hung {
+			c.dead = true
+			return
+		}
+		c.steps = append(c.steps, "SSortPanic "+rle(during)+" "+vhlib.IntList(after))
+		c.labels = append(c.labels, "Sort(comparator panics)")
+		c.observe("Sort(comparator panics)")
+	case p: // Sort itself panicked
+		c.steps = append(c.steps, "s_ OSort RPanic")
+		c.labels = append(c.labels, "Sort")
+		c.dead = true
+	default:
+		if bytes == 0 {
+			c.steps = append(c.steps, "s_ OSort RUnit")
+		} else {
+			c.steps = append(c.steps, "sb_ OSort RUnit "+vhlib.Nat(int(bytes)))
+		}
+		c.labels = append(c.labels, "Sort")
+		c.steps = append(c.steps, "SDuring true "+rle(during))
+		c.labels = append(c.labels, "Sort/list seen by the comparator")
+		c.observe("Sort")
+	}
+}
+
+// iterate: one of Each / Map / Select / Any / All / Find with a callback that records its argument and what the list
+// reports at that moment and, if panicAt >= 0, panics at that invocation (recovered here). Plain lists only.
+func (c *caseBuilder) iterate(name string, panicAt int) {
+	if c.dead || c.k.safe {
+		return
+	}
+	what := fmt.Sprintf("%s(observing callback, panics at call %d)", name, panicAt)
+	var seen []int
+	var during [][]int
+	supported := true
+	p := c.guarded(what, func() { supported = c.l.Iterate(name, panicAt, &seen, &during) })
+	if c.hung || !supported {
+		return
+	}
+	c.hist = append(c.hist, what)
+	own := p && panicAt >= 0 && len(seen) == panicAt+1
+	if p && !own { // the method itself panicked
+		c.dead = true
+		theWriter.Violation(c.k.name, name+": panics", map[string]interface{}{"structure": c.k.name, "calls": c.hist})
+		return
+	}
+	c.steps = append(c.steps, fmt.Sprintf("SSeen %s %s", vhlib.Bool(!own), vhlib.IntList(seen)))
+	c.labels = append(c.labels, name+"/callback arguments")
+	c.steps = append(c.steps, "SDuring false "+rle(during))
+	c.labels = append(c.labels, name+"/list seen by the callback")
+	c.observe(name)
+}
+
 func (c *caseBuilder) emit(w *vhlib.Writer, profile string) {
 	if !c.dead { // closing queries: search batches longer than the list, every value present (so with repetitions)
 		var cur []int
-		vhlib.Recover(func() { cur = c.l.Snapshot() })
+		c.guarded("Values", func() { cur = c.l.Snapshot() })
 		if len(cur) > 0 {
 			c.do(op{K: "Contains", Vs: append(append([]int{}, cur...), cur...)})
 			c.do(op{K: "Contains", Vs: []int{cur[0], cur[len(cur)-1], cur[0]}})
@@ -349,7 +474,7 @@ func (c *caseBuilder) emit(w *vhlib.Writer, profile string) {
 	}
 	if !c.dead { // aliasing judgement: every slice Values() returned, read again now
 		var now [][]int
-		if p, _ := vhlib.Recover(func() { now = c.l.KeptNow() }); !p {
+		if p := c.guarded("KeptNow", func() { now = c.l.KeptNow() }); !p && !c.hung {
 			it := make([]string, len(now))
 			for i, s := range now {
 				it[i] = vhlib.IntList(s)
@@ -357,6 +482,9 @@ func (c *caseBuilder) emit(w *vhlib.Writer, profile string) {
 			c.steps = append(c.steps, "SKept "+vhlib.List(it))
 			c.labels = append(c.labels, "kept Values() results")
 		}
+	}
+	if c.hung { // reported by the watchdog as a direct violation
+		return
 	}
 	term := fmt.Sprintf("{| c_kind := %s; c_steps := [%s] |}", c.k.coq, strings.Join(c.steps, ";\n "))
 	w.Case(term, c.k.name+" "+profile, len(c.hist) >= 2 || c.maxLen >= 1, c.labels,
@@ -377,6 +505,10 @@ func vals(r *vhlib.Rng, n int, zeroHeavy bool) []int {
 
 // build a list of length n by Add calls of uneven sizes (exercises growBy)
 func (c *caseBuilder) fill(r *vhlib.Rng, n int) {
+	if c.k.safe && len(c.hist) == 0 { // Safe wrappers: every trace starts with calls on the empty list (each must return)
+		c.do(op{K: "Remove", I: 0})
+		c.do(op{K: "Get", I: 0})
+	}
 	vs := vals(r, n, false)
 	if n > 0 && !contains(vs, 0) { // the zero value is always somewhere in a long list
 		vs[r.Intn(n)] = 0
@@ -419,6 +551,7 @@ func main() {
 		os.Remove(capFile.Name())
 	}()
 	w := vhlib.NewWriter(o.Out, "From VF Require Import C07.Model C07.Check.\nLocal Open Scope Z_scope.", "case", "mismatches", 60)
+	theWriter = w
 	thorough := o.Thorough()
 	kinds := append(append([]kind{}, kinds...), otherKinds(rng)...)
 	share := func(k kind) bool { return k.other && !thorough } // quick tier: a share of each stream for the other element types
@@ -534,6 +667,50 @@ func main() {
 			}
 		}
 	}
+	// ---- 2c. user callbacks that watch the list in the middle of the operation (and sometimes panic): Sort comparators
+	//          on lists with ties, and the six iteration methods; plain lists (a Safe wrapper holds its lock meanwhile) ----
+	for _, k := range kinds {
+		if k.safe {
+			continue
+		}
+		ns := []int{0, 1, 2, 5, 13, 20}
+		if share(k) {
+			ns = []int{2, 13}
+		}
+		for _, n := range ns {
+			pas := []int{-1, 0, n / 2, n - 2}
+			if share(k) {
+				pas = []int{-1, n / 2}
+			}
+			for _, pa := range pas {
+				if pa >= n-1 && pa >= 0 {
+					continue
+				}
+				r := rng.Fork()
+				c := newCase(k)
+				c.fill(r, n)
+				c.sortObserved(pa)
+				c.do(op{K: "Add", Vs: []int{1, 0}})
+				c.sortObserved(-1)
+				c.emit(w, "callbacks")
+			}
+			for ni, name := range iterNames {
+				if share(k) && ni%3 != n%3 {
+					continue
+				}
+				r := rng.Fork()
+				c := newCase(k)
+				c.fill(r, n)
+				c.iterate(name, -1)
+				if n > 0 {
+					c.iterate(name, r.Intn(n))
+				}
+				c.do(op{K: "Add", Vs: []int{2}})
+				c.iterate(name, -1)
+				c.emit(w, "callbacks")
+			}
+		}
+	}
 	// ---- 3. profiled random walks ----
 	profiles := []string{"grow", "shrink", "churn", "malformed", "sorty", "zeros", "prepend-heavy", "long"}
 	walks := 10
@@ -593,7 +770,7 @@ func main() {
 			rec(nil, len(start), depth)
 		}
 	}
-	w.Close(o, "one case = one list (array / doubly / singly linked, plain or Safe wrapper; element type int, and for a share of every stream *T with distinct and shared pointers to equal structs, any holding slices / structs with slices / maps, string - encoded by content class) driven through a call sequence; every call records (result, bytes written to stdout), a caller scribbling over a Values() result is a step of some traces, every slice returned by Values() is read again at the end of the trace (aliasing judgement), every mutator is followed by Values, Size, Empty, Get i for i in [-1,size], IndexOf and Contains for each of 0..4 and, for the array list, the backing array; distinct = distinct case terms; non-trivial = at least two calls or a non-empty list reached")
+	w.Close(o, "one case = one list (array / doubly / singly linked, plain or Safe wrapper; element type int, and for a share of every stream *T with distinct and shared pointers to equal structs, any holding slices / structs with slices / maps, string - encoded by content class) driven through a call sequence; every call records (result, bytes written to stdout), Sort comparators and Each/Map/Select/Any/All/Find callbacks that read the list at every invocation (and sometimes panic, recovered) are steps of some traces, every call runs under a watchdog (a call that does not return is a violation), a caller scribbling over a Values() result is a step of some traces, every slice returned by Values() is read again at the end of the trace (aliasing judgement), every mutator is followed by Values, Size, Empty, Get i for i in [-1,size], IndexOf and Contains for each of 0..4 and, for the array list, the backing array; distinct = distinct case terms; non-trivial = at least two calls or a non-empty list reached")
 }
 
 func alphabet(n int) []op {
@@ -610,6 +787,10 @@ func alphabet(n int) []op {
 }
 
 func walk(c *caseBuilder, r *vhlib.Rng, prof string, thorough bool) {
+	if c.k.safe {
+		c.do(op{K: "Remove", I: 0})
+		c.do(op{K: "Get", I: 0})
+	}
 	steps := r.Range(8, 22)
 	zero := prof == "zeros"
 	switch prof {
@@ -683,7 +864,15 @@ func walk(c *caseBuilder, r *vhlib.Rng, prof string, thorough bool) {
 		case 9:
 			c.do(op{K: "Swap", I: idx(), J: idx()})
 		case 10:
-			c.do(op{K: "Sort"})
+			if r.Bool() { // a comparator that watches the list, one time in three also panics somewhere
+				pa := -1
+				if n >= 2 && r.Chance(1, 3) {
+					pa = r.Intn(n - 1)
+				}
+				c.sortObserved(pa)
+			} else {
+				c.do(op{K: "Sort"})
+			}
 		case 11:
 			if r.Chance(1, 3) {
 				c.do(op{K: "Clear"})
@@ -695,6 +884,13 @@ func walk(c *caseBuilder, r *vhlib.Rng, prof string, thorough bool) {
 			c.do(op{K: "IndexOf", I: r.Range(-1, 5)})
 		case 13:
 			c.do(op{K: "Get", I: r.Range(-3, n+3)})
+			if r.Bool() {
+				pa := -1
+				if n >= 1 && r.Chance(1, 3) {
+					pa = r.Intn(n)
+				}
+				c.iterate(iterNames[r.Intn(len(iterNames))], pa)
+			}
 		}
 	}
 }
